@@ -4,7 +4,8 @@ import HappyModel.C06.Spec
 *time window*: in a schedule ordered by time, a window whose activation was processed at time `s`
 and whose deactivation is processed at time `r` is active at every step whose time lies strictly
 between `s` and `r`, and only at steps whose time lies in `[s, r]` (at the two boundary instants the
-engine's tie order decides, which is C01's subject).
+engine's tie order decides, which is C01's subject).  For a partition window this is stated for
+schedules in which no `Network.heal_partition()` call cuts windows short (`Clear`).
 -/
 set_option linter.unusedSimpArgs false
 namespace HappyModel.C06
@@ -12,14 +13,23 @@ namespace HappyModel.C06
 def ActIn (f : Nat) (l : List Pop) : Prop := ∃ t, Pop.fault t f true ∈ l
 def NoDeact (f : Nat) (l : List Pop) : Prop := ∀ t, Pop.fault t f false ∉ l
 
-theorem mem_active_iff (f : Nat) : ∀ (l : List Pop) (ever act : List Nat),
-    wfFrom ever act l = true → (∀ x, x ∈ act → x ∈ ever) → act.Nodup →
-    (f ∈ l.foldl actStep act ↔
+/-- no `Network.heal_partition()` call can end window `f` early (vacuous unless `f` is a partition) -/
+def Clear (fs : List Fault) (f : Nat) (l : List Pop) : Prop :=
+  isPartF fs f = true → ∀ t, Pop.healall t ∉ l
+
+theorem clear_tail {fs : List Fault} {f : Nat} {p : Pop} {rest : List Pop}
+    (h : Clear fs f (p :: rest)) : Clear fs f rest :=
+  fun hp t hm => h hp t (List.mem_cons_of_mem _ hm)
+
+theorem mem_active_iff (fs : List Fault) (f : Nat) : ∀ (l : List Pop) (ever act : List Nat),
+    wfFrom fs ever act l = true → (∀ x, x ∈ act → x ∈ ever) → act.Nodup → Clear fs f l →
+    (f ∈ l.foldl (actStep fs) act ↔
       (f ∈ act ∧ NoDeact f l) ∨ (f ∉ ever ∧ ActIn f l ∧ NoDeact f l))
-  | [], ever, act, _, hsub, _ => by
+  | [], ever, act, _, hsub, _, _ => by
     simp only [List.foldl_nil, NoDeact, ActIn, List.not_mem_nil, not_false_eq_true, implies_true,
       and_true, exists_false, false_and, and_false, or_false]
-  | p :: rest, ever, act, hwf, hsub, nd => by
+  | p :: rest, ever, act, hwf, hsub, nd, hcl => by
+    have hcl' := clear_tail hcl
     cases p with
     | fault t g a =>
       cases a with
@@ -27,12 +37,12 @@ theorem mem_active_iff (f : Nat) : ∀ (l : List Pop) (ever act : List Nat),
         simp only [wfFrom, Bool.and_eq_true, Bool.not_eq_true', List.contains_eq_mem,
           decide_eq_false_iff_not] at hwf
         obtain ⟨hg, hrest⟩ := hwf
-        have ih := mem_active_iff f rest (g :: ever) (g :: act) hrest
+        have ih := mem_active_iff fs f rest (g :: ever) (g :: act) hrest
           (fun x hx => by
             rcases List.mem_cons.mp hx with rfl | hx
             · exact List.mem_cons_self ..
             · exact List.mem_cons_of_mem _ (hsub x hx))
-          (List.nodup_cons.mpr ⟨fun hm => hg (hsub g hm), nd⟩)
+          (List.nodup_cons.mpr ⟨fun hm => hg (hsub g hm), nd⟩) hcl'
         simp only [List.foldl_cons, actStep]
         rw [ih]
         have nd1 : NoDeact f (Pop.fault t g true :: rest) ↔ NoDeact f rest := by
@@ -51,18 +61,23 @@ theorem mem_active_iff (f : Nat) : ∀ (l : List Pop) (ever act : List Nat),
             · rintro ⟨t', h⟩; exact ⟨t', Or.inr h⟩
           simp [nd1, a1, hfg]
       | false =>
-        simp only [wfFrom, Bool.and_eq_true, List.contains_eq_mem, decide_eq_true_eq] at hwf
+        simp only [wfFrom, Bool.and_eq_true, Bool.or_eq_true, List.contains_eq_mem,
+          decide_eq_true_eq] at hwf
         obtain ⟨hg, hrest⟩ := hwf
-        have ih := mem_active_iff f rest ever (act.erase g) hrest
+        have hgev : g ∈ ever := by
+          rcases hg with h | h
+          · exact hsub g h
+          · exact h.2
+        have ih := mem_active_iff fs f rest ever (act.erase g) hrest
           (fun x hx => hsub x (List.mem_of_mem_erase hx))
-          (List.Nodup.sublist List.erase_sublist nd)
+          (List.Nodup.sublist List.erase_sublist nd) hcl'
         simp only [List.foldl_cons, actStep]
         rw [ih]
         by_cases hfg : f = g
         · subst hfg
           have h1 : f ∉ act.erase f := List.Nodup.not_mem_erase nd
           have h2 : ¬ NoDeact f (Pop.fault t f false :: rest) := fun h => h t (List.mem_cons_self ..)
-          have h3 : f ∈ ever := hsub f hg
+          have h3 : f ∈ ever := hgev
           simp [h1, h2, h3]
         · have nd1 : NoDeact f (Pop.fault t g false :: rest) ↔ NoDeact f rest := by
             simp only [NoDeact, List.mem_cons, Pop.fault.injEq, and_true, not_or]
@@ -73,35 +88,49 @@ theorem mem_active_iff (f : Nat) : ∀ (l : List Pop) (ever act : List Nat),
             simp [ActIn]
           have m1 : f ∈ act.erase g ↔ f ∈ act := List.mem_erase_of_ne hfg
           simp [nd1, a1, m1]
+    | healall t =>
+      simp only [wfFrom] at hwf
+      have hnp : isPartF fs f = false := by
+        cases hp : isPartF fs f with
+        | false => rfl
+        | true => exact absurd (List.mem_cons_self ..) (hcl hp t)
+      have ih := mem_active_iff fs f rest ever (act.filter fun x => !isPartF fs x) hwf
+        (fun x hx => hsub x (List.mem_filter.mp hx).1)
+        (List.Nodup.sublist List.filter_sublist nd) hcl'
+      simp only [List.foldl_cons, actStep]
+      rw [ih]
+      have m1 : f ∈ act.filter (fun x => !isPartF fs x) ↔ f ∈ act := by
+        simp [List.mem_filter, hnp]
+      simp [m1, NoDeact, ActIn]
     | cancel t g =>
       simp only [wfFrom] at hwf
-      simpa [actStep, NoDeact, ActIn] using mem_active_iff f rest ever act hwf hsub nd
+      simpa [actStep, NoDeact, ActIn] using mem_active_iff fs f rest ever act hwf hsub nd hcl'
     | job t j cont =>
       simp only [wfFrom] at hwf
-      simpa [actStep, NoDeact, ActIn] using mem_active_iff f rest ever act hwf hsub nd
+      simpa [actStep, NoDeact, ActIn] using mem_active_iff fs f rest ever act hwf hsub nd hcl'
     | sink t j k =>
       simp only [wfFrom] at hwf
-      simpa [actStep, NoDeact, ActIn] using mem_active_iff f rest ever act hwf hsub nd
+      simpa [actStep, NoDeact, ActIn] using mem_active_iff fs f rest ever act hwf hsub nd hcl'
     | nsend t q =>
       simp only [wfFrom] at hwf
-      simpa [actStep, NoDeact, ActIn] using mem_active_iff f rest ever act hwf hsub nd
+      simpa [actStep, NoDeact, ActIn] using mem_active_iff fs f rest ever act hwf hsub nd hcl'
     | nhop t q =>
       simp only [wfFrom] at hwf
-      simpa [actStep, NoDeact, ActIn] using mem_active_iff f rest ever act hwf hsub nd
+      simpa [actStep, NoDeact, ActIn] using mem_active_iff fs f rest ever act hwf hsub nd hcl'
     | recv t q =>
       simp only [wfFrom] at hwf
-      simpa [actStep, NoDeact, ActIn] using mem_active_iff f rest ever act hwf hsub nd
+      simpa [actStep, NoDeact, ActIn] using mem_active_iff fs f rest ever act hwf hsub nd hcl'
 
-theorem wf_take : ∀ (l : List Pop) (ever act : List Nat) (k : Nat),
-    wfFrom ever act l = true → wfFrom ever act (l.take k) = true
+theorem wf_take (fs : List Fault) : ∀ (l : List Pop) (ever act : List Nat) (k : Nat),
+    wfFrom fs ever act l = true → wfFrom fs ever act (l.take k) = true
   | _, _, _, 0, _ => by simp [wfFrom]
   | [], _, _, _ + 1, _ => by simp [wfFrom]
   | p :: rest, ever, act, k + 1, h => by
     cases p with
     | fault t g a =>
       cases a <;> simp only [List.take_succ_cons, wfFrom, Bool.and_eq_true] at h ⊢ <;>
-        exact ⟨h.1, wf_take rest _ _ k h.2⟩
-    | _ => simp only [List.take_succ_cons, wfFrom] at h ⊢; exact wf_take rest _ _ k h
+        exact ⟨h.1, wf_take fs rest _ _ k h.2⟩
+    | _ => simp only [List.take_succ_cons, wfFrom] at h ⊢; exact wf_take fs rest _ _ k h
 
 /-- times never decrease along the schedule -/
 def Sorted (tr : List Pop) : Prop := tr.Pairwise (fun p q => p.time ≤ q.time)
@@ -119,11 +148,12 @@ theorem split_at (tr : List Pop) (k : Nat) (p : Pop) (hp : tr[k]? = some p) :
 
 /-- a window whose activation has been processed strictly before the time of step `k` and whose
     deactivation (if any) is processed strictly after it is active at step `k` -/
-theorem active_of_inside (tr : List Pop) (k : Nat) (p : Pop) (f s : Nat)
-    (hwf : WF tr) (hs : Sorted tr) (hp : tr[k]? = some p)
+theorem active_of_inside (fs : List Fault) (tr : List Pop) (k : Nat) (p : Pop) (f s : Nat)
+    (hwf : WF fs tr) (hs : Sorted tr) (hcl : Clear fs f tr) (hp : tr[k]? = some p)
     (hact : Pop.fault s f true ∈ tr) (h1 : s < p.time)
     (h2 : ∀ r, Pop.fault r f false ∈ tr → p.time < r) :
-    f ∈ activeAfter (tr.take k) := by
+    f ∈ activeAfter fs (tr.take k) := by
+  have hclk : Clear fs f (tr.take k) := fun hpf t hm => hcl hpf t (List.mem_of_mem_take hm)
   obtain ⟨rest, hsplit⟩ := split_at tr k p hp
   have hpw : (tr.take k ++ p :: rest).Pairwise (fun p q => p.time ≤ q.time) := hsplit ▸ hs
   obtain ⟨_, hright, hcross⟩ := List.pairwise_append.mp hpw
@@ -150,21 +180,23 @@ theorem active_of_inside (tr : List Pop) (k : Nat) (p : Pop) (f s : Nat)
     have := hcross _ hm p (List.mem_cons_self ..)
     have e : (Pop.fault r f false).time = r := rfl
     rw [e] at this; omega
-  exact (mem_active_iff f (tr.take k) [] [] (wf_take tr [] [] k hwf) (by simp) List.nodup_nil).mpr
-    (Or.inr ⟨by simp, hA, hN⟩)
+  exact (mem_active_iff fs f (tr.take k) [] [] (wf_take fs tr [] [] k hwf) (by simp) List.nodup_nil
+    hclk).mpr (Or.inr ⟨by simp, hA, hN⟩)
 
 /-- conversely, a window that is active at step `k` was activated at a time `≤` the step's time, and
     its deactivation, if it is ever processed, is processed at a time `≥` the step's time -/
-theorem inside_of_active (tr : List Pop) (k : Nat) (p : Pop) (f : Nat)
-    (hwf : WF tr) (hs : Sorted tr) (hp : tr[k]? = some p) (hact : f ∈ activeAfter (tr.take k)) :
+theorem inside_of_active (fs : List Fault) (tr : List Pop) (k : Nat) (p : Pop) (f : Nat)
+    (hwf : WF fs tr) (hs : Sorted tr) (hcl : Clear fs f tr) (hp : tr[k]? = some p)
+    (hact : f ∈ activeAfter fs (tr.take k)) :
     (∃ s, Pop.fault s f true ∈ tr ∧ s ≤ p.time) ∧
     (∀ r, Pop.fault r f false ∈ tr → p.time ≤ r) := by
   obtain ⟨rest, hsplit⟩ := split_at tr k p hp
   have hpw : (tr.take k ++ p :: rest).Pairwise (fun p q => p.time ≤ q.time) := hsplit ▸ hs
   obtain ⟨_, hright, hcross⟩ := List.pairwise_append.mp hpw
   have hpr := (List.pairwise_cons.mp hright).1
-  have hm := (mem_active_iff f (tr.take k) [] [] (wf_take tr [] [] k hwf) (by simp)
-    List.nodup_nil).mp hact
+  have hclk : Clear fs f (tr.take k) := fun hpf t hm => hcl hpf t (List.mem_of_mem_take hm)
+  have hm := (mem_active_iff fs f (tr.take k) [] [] (wf_take fs tr [] [] k hwf) (by simp)
+    List.nodup_nil hclk).mp hact
   rcases hm with ⟨h, _⟩ | ⟨_, ⟨s, hs'⟩, hN⟩
   · simp at h
   · refine ⟨⟨s, List.mem_of_mem_take hs', ?_⟩, ?_⟩
